@@ -586,7 +586,7 @@ def frame(cls, under_contract, acknowledged=(), properties=()):
 frame("gotranx.codegen.python.GotranPythonCodePrinter",
       ["_print_Float", "_print_Piecewise", "_print_And", "_print_Or", "_print_Mod", "_print_Not", "_print_Equality", "_print_sign"],
       acknowledged=["_kf", "_kc", "_hprint_Pow", "_print_MatrixElement"], properties=("C01", "C03", "C14"))
-frame("gotranx.codegen.c.GotranCCodePrinter", ["_print_Float", "_print_Piecewise"], acknowledged=["__init__"], properties=("C02",))
+frame("gotranx.codegen.c.GotranCCodePrinter", ["_print_Float", "_print_Piecewise", "_print_Abs", "_print_Mod"], acknowledged=["__init__"], properties=("C02",))
 frame("gotranx.codegen.jax.JaxPrinter", ["_print_Assignment"], properties=("C03",))
 frame("gotranx.codegen.ode.BaseGotranODECodePrinter", ["_print_Relational", "_print_Exp1", "_print_Or", "_print_And", "_print_Piecewise"],
       acknowledged=["_print_BooleanFalse", "_print_BooleanTrue"], properties=("C11",))
@@ -666,4 +666,51 @@ for which in ("state", "parameter"):
              properties=("C02", "C04"), note="BOUNDED: 0, 1 and 3 entries; compiled with gcc and called on an array with guard cells")
 for _q, _c in CONTRACTS.items():
     if _q.startswith((TJ, TC)):
+        _c.bounded = True
+
+
+# ----------------------------------------------------------------------------------------------- C printer: Abs and Mod
+@registry.spec("c_expr_values")
+def _c_expr_values(ctx, st, text, pairs):
+    """compile `double f(double A0, double A1) { return <text>; }` and evaluate it on the given argument pairs"""
+    d = tempfile.mkdtemp(dir=os.environ.get("TMPDIR", "/tmp"))
+    try:
+        src, so = os.path.join(d, "m.c"), os.path.join(d, "m.so")
+        open(src, "w").write("#include <math.h>\n#include <stdbool.h>\ndouble f(double A0, double A1){ return " + text + "; }\n")
+        if subprocess.run(["gcc", "-shared", "-fPIC", "-O0", src, "-o", so, "-lm"], capture_output=True).returncode != 0:
+            return None
+        lib = ctypes.CDLL(so)
+        lib.f.argtypes = [ctypes.c_double, ctypes.c_double]
+        lib.f.restype = ctypes.c_double
+        return [lib.f(a, b) for a, b in pairs]
+    finally:
+        import shutil
+        shutil.rmtree(d, ignore_errors=True)
+
+
+_MOD_PAIRS = [(-2.5, 3.0), (2.5, 3.0), (2.5, -3.0), (-2.5, -3.0), (7.0, 2.0), (-7.0, 2.0), (0.0, 1.5), (5.5, 0.5), (-0.25, 1e3), (1e6 + 0.5, 7.0)]
+
+
+@registry.spec("python_mod_values")
+def _python_mod_values(ctx, st):
+    import math as _m
+    return [a - _m.floor(a / b) * b if False else a % b for a, b in _MOD_PAIRS]
+
+
+@registry.spec("close_lists")
+def _close_lists(ctx, st, xs, ys):
+    return xs is not None and len(xs) == len(ys) and all(abs(x - y) <= 1e-9 * (1 + abs(y)) for x, y in zip(xs, ys))
+
+
+registry.SPECS["MOD_PAIRS"] = lambda ctx, st: list(_MOD_PAIRS)
+contract(CP + "_print_Mod", params={"self": "any", "expr": "any"}, ret="PyStr",
+         enum_params={"self": [printer_self("true")], "expr": [hole("Op", "Mod", [hole("A0"), hole("A1")])]},
+         ensures={"result_has_the_sign_of_the_divisor_like_the_language_Mod": "close_lists(c_expr_values(result, MOD_PAIRS()), python_mod_values())"},
+         properties=("C02",), note="BOUNDED instance: the emitted C expression is compiled and evaluated on 10 argument pairs of all sign combinations")
+contract(CP + "_print_Abs", params={"self": "any", "expr": "any"}, ret="PyStr",
+         enum_params={"self": [printer_self("true")], "expr": [hole("Op", "Abs", [hole("A0")])]},
+         ensures={"the_double_function": "same_tokens(result, 'fabs(A0)')"},
+         properties=("C02",), note="BOUNDED instance: abs() of C is the int function")
+for _q, _c in CONTRACTS.items():
+    if _q.startswith(CP):
         _c.bounded = True
